@@ -197,6 +197,8 @@ def benign_variants(prop: str, project: Project) -> list:
         meta = json.load(open(mp))
         if prop != meta.get("written_against") and prop not in (meta.get("alarms_when_first_run") or {}):
             continue
+        if prop in (meta.get("open_false_alarm") or {}):
+            continue  # a recorded, still open false alarm of this property's check (DESIGN.md §16): listed by tools/benign_run.py
 
         def read(rel):
             for m in project.modules.values():
